@@ -3,7 +3,7 @@
    All statements are about the model instantiated with the Unicode tables of the Go toolchain
    (Consts.v): go_is_letter, go_is_number, go_to_lower. *)
 From Coq Require Import List Bool NArith.
-From C11 Require Import Model ModelDoc CaseDefs ProofsText ProofsPath ProofsSpec ProofsGo.
+From C11 Require Import Model ModelDoc ModelMulti ModelLex CaseDefs ProofsText ProofsPath ProofsSpec ProofsGo ProofsLex ProofsLexGo.
 Open Scope N_scope.
 
 (* Lower-casing agrees on both sides for EVERY byte string (valid UTF-8 or not, including runes whose
@@ -341,3 +341,123 @@ Example C11_exists_in_without_rule_refuted :
   query_in go_is_letter go_is_number go_to_lower TyKeyword false [title] = Some [[[TText [116; 114; 97; 99; 101; 105; 100]]]] /\
   in_finds [[[TText [116; 114; 97; 99; 101; 105; 100]]]] [title] = false.
 Proof. exact exists_in_without_rule_refuted. Qed.
+
+(* ================================================================= phase 4: from the value to the query TEXT *)
+
+(* FULL STATEMENT AIMED AT (C11_quote_roundtrip): for every valid UTF-8 v, EVERY style st of ModelLex.render (double,
+   single, back quote with the spliced double-quoted back quote, bare, double with any escape choices) and the legacy
+   quoted form, at every position of a query, lexing `render st v` yields the literal whose term list is [text v].
+   PROVED below for the double- and the single-quoted style (ParseSeqQL); the back-quoted, bare and escape-choice
+   styles and the legacy scanner (ModelLex.quoted_terms / bare_terms) are modelled and executed against the real
+   lexer / parsers on every run (classes lex, qtext, roundtrip), their round trip is NOT proved.
+
+   unquotePrefix (fast path, slow path with unquoteChar / strconv.UnquoteChar, remIdx arithmetic) undoes the
+   renderer exactly: whatever follows the closing quote is returned untouched as the rest of the query. *)
+Theorem C11_unquote_roundtrip_partial :
+  forall q v rest, (q = 34 \/ q = 39) -> valid_utf8 v = true ->
+    unquote_prefix (render_q q v ++ rest) = ROk (Some (v, rest)).
+Proof. exact go_unquote_render. Qed.
+Print Assumptions C11_unquote_roundtrip_partial.
+
+(* lexer.Next standing at the rendered literal — at ANY position of ANY query (rest and the SpaceSkipped flag are
+   arbitrary; Next depends on nothing but the query tail): exactly ONE token, quoted (so never a keyword, `in`, `to`,
+   a range or list delimiter), whose text is v byte for byte — no wildcard rune although v may contain `*`, no split
+   at spaces, quotes, backslashes, brackets or `|` — and the lexer continues right behind the closing quote. *)
+Theorem C11_quote_roundtrip_partial :
+  forall q v rest sp fuel, (q = 34 \/ q = 39) -> valid_utf8 v = true ->
+    next go_is_space go_is_letter go_is_digit (S fuel) (render_q q v ++ rest) sp = ROk (mkTok v true false sp, rest).
+Proof. exact go_next_render_q. Qed.
+Print Assumptions C11_quote_roundtrip_partial.
+
+(* The whole way for the plain form `name:<literal>`: ParseSeqQL's model (lexer, composite token, field filter, case
+   rule, parseSeqQLKeyword / parseSeqQLText) on the TEXT gives the literals the term-level model makes of v itself.
+   name_ok: a bare ASCII field name ([A-Za-z0-9_.]+) other than `not`. *)
+Theorem C11_plain_query_text_partial :
+  forall ftype sens q n v t lits,
+    (q = 34 \/ q = 39) -> name_ok n = true -> valid_utf8 v = true -> ftype n = t -> searchable t = true ->
+    m_query t (sens || list_eqb_N n K_EXISTS) v = Some lits ->
+    m_seqql_text ftype sens (n ++ 58 :: render_q q v) = ROk (QPlain lits).
+Proof. exact go_seqql_plain_text. Qed.
+Print Assumptions C11_plain_query_text_partial.
+
+(* End to end over query TEXT (partial: plain form, double/single style): for every keyword value within the limit
+   (valid UTF-8, no U+E000) the text `name:<quoted v>` — lexed, unquoted and parsed by the model — is one literal with
+   the one text term that the keyword tokenizer's model indexed. *)
+Theorem C11_keyword_findable_text_partial :
+  forall c fmax v q n ftype,
+    (length v <= limit_of (max_tok c) fmax)%nat -> has_rune WildcardRune v = false -> valid_utf8 v = true ->
+    (q = 34 \/ q = 39) -> name_ok n = true -> list_eqb_N n K_EXISTS = false -> ftype n = TyKeyword ->
+    exists t, fst (kw_tokenize go_to_lower c fmax v) = [t] /\
+              m_seqql_text ftype (cs c) (n ++ 58 :: render_q q v) = ROk (QPlain [[TText t]]) /\
+              query_finds [[TText t]] (fst (kw_tokenize go_to_lower c fmax v)) = true.
+Proof. exact go_keyword_findable_text. Qed.
+Print Assumptions C11_keyword_findable_text_partial.
+
+(* every word of the indexed part of a text value that fits MaxTokenSize: the text `name:<quoted w>` parses to the one
+   term that is among the text tokenizer's tokens *)
+Theorem C11_text_words_findable_text_partial :
+  forall c fmax v w q n ftype,
+    v <> [] -> skipped TyText c fmax v = false ->
+    In w (words_of go_is_letter go_is_number (segs (indexed_part TyText c fmax v)) []) -> sizeok c w = true ->
+    valid_utf8 w = true ->
+    (q = 34 \/ q = 39) -> name_ok n = true -> list_eqb_N n K_EXISTS = false -> ftype n = TyText ->
+    m_seqql_text ftype (cs c) (n ++ 58 :: render_q q w) = ROk (QPlain [[TText (go_word_token c w)]]) /\
+    In (go_word_token c w) (fst (text_tokenize go_is_letter go_is_number go_to_lower c fmax v)) /\
+    query_finds [[TText (go_word_token c w)]] (fst (text_tokenize go_is_letter go_is_number go_to_lower c fmax v)) = true.
+Proof. exact go_text_words_findable_text. Qed.
+Print Assumptions C11_text_words_findable_text_partial.
+
+(* every leading path (and the whole indexed part) of a path value *)
+Theorem C11_path_prefix_findable_text_partial :
+  forall c fmax v p q n ftype,
+    skipped TyPath c fmax v = false ->
+    In p (path_prefixes [] (indexed_part TyPath c fmax v) ++ [indexed_part TyPath c fmax v]) ->
+    has_rune WildcardRune p = false -> valid_utf8 p = true ->
+    (q = 34 \/ q = 39) -> name_ok n = true -> list_eqb_N n K_EXISTS = false -> ftype n = TyPath ->
+    m_seqql_text ftype (cs c) (n ++ 58 :: render_q q p) = ROk (QPlain [[TText (go_ptok c p)]]) /\
+    In (go_ptok c p) (fst (path_tokenize go_to_lower c fmax v)) /\
+    query_finds [[TText (go_ptok c p)]] (fst (path_tokenize go_to_lower c fmax v)) = true.
+Proof. exact go_path_prefix_findable_text. Qed.
+Print Assumptions C11_path_prefix_findable_text_partial.
+
+(* `_exists_:<quoted title>` as text, whatever the configured case sensitivity *)
+Theorem C11_exists_findable_text_partial :
+  forall sens title q ftype,
+    has_rune WildcardRune title = false -> valid_utf8 title = true -> (q = 34 \/ q = 39) -> ftype K_EXISTS = TyKeyword ->
+    m_seqql_text ftype sens (K_EXISTS ++ 58 :: render_q q title) = ROk (QPlain [[TText title]]).
+Proof. exact go_exists_findable_text. Qed.
+Print Assumptions C11_exists_findable_text_partial.
+
+(* hypotheses witnessed: a keyword value with a space, an asterisk, a double quote and an upper-case letter *)
+Example C11_text_roundtrip_nonvacuous :
+  let v := [65; 32; 42; 98; 34; 99] in
+  let ft := case_ftype [102] TyKeyword in
+  valid_utf8 v = true /\ name_ok [102] = true /\ has_rune WildcardRune v = false /\
+  render_q 34 v = [34; 65; 32; 92; 42; 98; 92; 34; 99; 34] /\
+  m_seqql_text ft false ([102] ++ 58 :: render_q 34 v) = ROk (QPlain [[TText [97; 32; 42; 98; 34; 99]]]) /\
+  fst (kw_tokenize go_to_lower (ICfg false false 72 32768) 0 v) = [[97; 32; 42; 98; 34; 99]].
+Proof. exact text_roundtrip_nonvacuous. Qed.
+
+(* valid UTF-8 cannot be dropped from the round trip: the slow path of unquotePrefix turns an invalid byte into U+FFFD
+   (first line: the value holds an asterisk), the fast path keeps it (second line) and parseSeqQLKeyword re-encodes it;
+   in case-sensitive mode the indexed token keeps the raw byte (known finding cs-invalid-utf8, replayed by the driver) *)
+Example C11_invalid_utf8_roundtrip_witness :
+  let v := [97; 42; 255] in
+  m_lex ([102; 58] ++ render_q 34 v) =
+    ROk [mkTok [102] false false false; mkTok [58] false false false; mkTok [97; 42; 239; 191; 189] true false false] /\
+  m_lex ([102; 58] ++ render_q 34 [97; 255]) =
+    ROk [mkTok [102] false false false; mkTok [58] false false false; mkTok [97; 255] true false false] /\
+  m_seqql_text (case_ftype [102] TyKeyword) true ([102; 58] ++ render_q 34 [97; 255]) = ROk (QPlain [[TText [97; 239; 191; 189]]]) /\
+  fst (kw_tokenize go_to_lower (ICfg true false 72 32768) 0 [97; 255]) = [[97; 255]].
+Proof. exact invalid_utf8_roundtrip_witness. Qed.
+
+(* ================================================================= multi-type fields *)
+(* FULL STATEMENT AIMED AT (C11_multitype_inplace_invariant), NOT PROVED:
+     forall c all key v, index_types go_is_letter go_is_number go_to_lower c all key (Some v)
+                         = index_types_pure go_is_letter go_is_number go_to_lower c all key v
+   (the tokens of every title are those its tokenizer produces on the ORIGINAL value, although index() hands the
+   buffer the earlier titles lower-cased in place / left half converted to every later title). ModelDoc.index_types
+   models the threading; the run checks the equation on the real bulk processor against the real tokenizers run on
+   fresh copies of the original value (class multitype, spec checker), including length-changing lower-case runes,
+   invalid bytes and cuts inside a rune. What is proved is the case-sensitive half and the first title
+   (C11_flatten_value_seen_partial above). *)
